@@ -36,7 +36,7 @@ Definition install_ok (m : fs) (f : fname) (n : bytes) : bool :=
   | Some (File (Text t)) =>
       match parse_uidl t with
       | Ok u' =>
-          uids_ok_b u'
+          bytes_eqb (print_uidl u') t && wf_uidl u' && uids_ok_b u'
           && match lookup m (PCtl f CUidl) with
              | Some (File (Text t0)) =>
                  match parse_uidl t0 with
@@ -50,7 +50,9 @@ Definition install_ok (m : fs) (f : fname) (n : bytes) : bool :=
   | _ => false
   end.
 
-Definition legal_b (m : fs) (o : fsop) : bool :=
+Definition rename_ok_b := rename_clear.
+
+Definition legal_b (lay : layout) (m : fs) (o : fsop) : bool :=
   match o with
   | OCreat p => junk p || match p with PCtl _ CMdf => true | _ => false end
   | OWrite p _ => junk p
@@ -61,12 +63,16 @@ Definition legal_b (m : fs) (o : fsop) : bool :=
                     | _ => false
                     end
   | OUtime _ | OMkdir _ => true
-  | OLink (PMsg f STmp k []) (PMsg g s k' _) =>
+  | OLink (PMsg f STmp k []) (PMsg g s k' i) =>
       fname_eqb f g && bytes_eqb k k' && live s && key_unused_b m k
+      && wf_key k && wf_info i
+      && match lookup m (PMsg f STmp k []) with Some (File (Opaque _)) => true | _ => false end
   | ORename (PMsg f s k i) (PMsg g s' k' i') =>
-      live s && live s' && bytes_eqb k k' && (fname_eqb f g || bytes_eqb i i')
+      live s && live s' && bytes_eqb k k'
+      && ((fname_eqb f g && wf_info i') || bytes_eqb i i')
   | ORename (PTmp f n) (PCtl g CUidl) => fname_eqb f g && install_ok m f n
   | ORename (PTmp [] _) (PCtl [] CSubs) => true
+  | ORenameDir a b => rename_ok_b lay m a b
   | _ => false
   end.
 
@@ -75,8 +81,52 @@ Definition legal_b (m : fs) (o : fsop) : bool :=
 Fixpoint legal_ops_b (lay : layout) (m : fs) (l : list fsop) : bool :=
   match l with
   | [] => true
-  | o :: r => legal_b m o && match apply_op lay m o with
+  | o :: r => legal_b lay m o && match apply_op lay m o with
                              | Some m' => legal_ops_b lay m' r
                              | None => true
                              end
   end.
+
+(* the operations of a list that are executed: up to the first failing one *)
+Fixpoint applied (lay : layout) (m : fs) (l : list fsop) : list fsop :=
+  match l with
+  | [] => []
+  | o :: r => match apply_op lay m o with
+              | Some m' => o :: applied lay m' r
+              | None => []
+              end
+  end.
+
+(* a decision procedure for Spec.Inv (evaluated on the directory snapshots of
+   the real backend; LegalProofs.inv_b_sound) *)
+Fixpoint nodup_paths (l : list path) : bool :=
+  match l with
+  | [] => true
+  | p :: r => negb (existsb (path_eqb p) r) && nodup_paths r
+  end.
+
+Definition entry_ok (e : path * node) : bool :=
+  match e with
+  | (PCtl _ CUidl, File (Text t)) =>
+      match parse_uidl t with
+      | Ok u => bytes_eqb (print_uidl u) t && wf_uidl u && uids_ok_b u
+      | _ => false
+      end
+  | (PCtl _ CUidl, _) => false
+  | (PMsg _ s k i, n) =>
+      if live s then wf_key k && wf_info i
+                     && match n with File (Opaque _) => true | _ => false end
+      else true
+  | _ => true
+  end.
+
+Definition keys_unique_b (m : fs) : bool :=
+  forallb (fun e1 => forallb (fun e2 =>
+    match fst e1, fst e2 with
+    | PMsg _ s k _, PMsg _ s' k' _ =>
+        implb (live s && live s' && bytes_eqb k k') (path_eqb (fst e1) (fst e2))
+    | _, _ => true
+    end) m) m.
+
+Definition inv_b (m : fs) : bool :=
+  nodup_paths (map fst m) && forallb entry_ok m && keys_unique_b m.
